@@ -538,6 +538,12 @@ TO_PAYLOAD = {
 
 def run(ctx):
     f = ctx.facts()
+
+    # the serialisers are written in terms of MaxLenPrefix's accessors: those hand out the stored fields as they are
+    for acc in ("max_len", "prefix"):
+        K.check_returns_kept(ctx, f, "R-FLOW", "resources::addr::MaxLenPrefix::" + acc,
+                             "MaxLenPrefix::%s() returns the stored field unchanged (what the SLURM serialiser writes)" % acc,
+                             r"^self\.%s$" % acc, key="MaxLenPrefix::%s:returns-field" % acc)
     ctx.rule("R-REG", "complete decision table by abstract interpretation equals the spec table")
     ctx.rule("R-SIB", "every filter list of the container is consulted")
     ctx.rule("R-FLOW", "operand provenance")
